@@ -342,7 +342,16 @@ pub fn check_session(s: &Session, rec: &mut CaseRec) -> Verdict {
                         let prefix = format!("{} ", n);
                         let want = listing.iter().find(|l| l.starts_with(&prefix)).map(|l| l[prefix.len()..].trim_end_matches('\n').to_string());
                         match want {
-                            Some(w) if w == e.caret[0] => {}
+                            Some(w) if w == e.caret[0] => {
+                                // the caret points at the start of one of the line's tokens, or just past the line
+                                if let Ok(Ok(toks)) = catch(|| abasic_core::verif_hooks::tokenize_with_ranges(&w, 0)) {
+                                    let col = e.caret[1].chars().take_while(|c| *c == ' ').count();
+                                    let ok = col == w.len() + 1 || toks.iter().any(|(_, r)| r.start == col);
+                                    if !ok {
+                                        return Verdict::fail("caret-not-at-a-token", format!("error {} in line {:?}: caret at column {}", e.text, w, col));
+                                    }
+                                }
+                            }
                             other => {
                                 return Verdict::fail(
                                     "caret-source-line-differs",
